@@ -3,9 +3,6 @@ package file
 import (
 	"bytes"
 	"encoding/asn1"
-	"strings"
-
-	"github.com/google/uuid"
 
 	"github.com/edutko/decipher/internal/util"
 )
@@ -47,8 +44,7 @@ func IsMixedPEM(_ string, data []byte, _ int64) bool {
 }
 
 func IsUUID(_ string, data []byte, _ int64) bool {
-	s := strings.TrimSpace(string(data))
-	if _, err := uuid.Parse(s); err != nil {
+	if _, err := parseUUID(data); err != nil {
 		return false
 	}
 	return true
